@@ -9,7 +9,7 @@ from lib import core
 from lib.core import czl
 from harness import smppref, vsess
 
-THEOREMS = ['C15_frames_of_whole_pdus', 'C15_every_write_announced', 'C15_gate', 'C15_modes', 'C15_handed_over_exactly_once', 'C15_answer_after_hook', 'C15_nonvacuous']
+THEOREMS = ['C15_frames_of_whole_pdus', 'C15_every_write_announced', 'C15_gate', 'C15_modes', 'C15_handed_over_exactly_once', 'C15_read_pdu_survives_cancellation', 'C15_answer_after_hook', 'C15_nonvacuous']
 IMPORTS = ['AV.Model.Wire']
 BIND_CMD = {'TRANSCEIVER': 9, 'TRANSMITTER': 2, 'RECEIVER': 1}
 BOUND_STATE = {'TRANSCEIVER': 4, 'TRANSMITTER': 2, 'RECEIVER': 3}
@@ -394,6 +394,16 @@ def run(ctx):
                 ctx.violation(f'{kind} from the SMSC, connection failure while it is answered ({fail_mode}): {msg}',
                               {'function': 'nack_failure', 'kind': kind, 'fail_mode': fail_mode})
             action_cases.append((f'({czl(list(obs["pdu"]))}, {"false" if fail_mode == "none" else "true"})', czl([obs['received'].count(obs['pdu'])])))
+    # ---- the receiver cancelled while it handles a response it has read (scenario of harness/C01.py): the PDU still reaches the hook once
+    from harness import C01 as _C01
+    for kind in ('ok', 'nack'):
+        obs = _C01.receiver_cancelled_session(3.0, 0.2, kind)
+        ctx.traces += 1
+        ctx.case(('receiver_cancelled', kind), nontrivial=True)
+        if len(obs['resp_pdus']) != 1:
+            ctx.violation(f'the response ({kind}) to a submit_sm was read, the receiver was cancelled inside its correlation (send_error hook of an older '
+                          f'message suspended, connection lost): the PDU reached the received hook {len(obs["resp_pdus"])} time(s)',
+                          {'function': 'receiver_cancelled', 'kind': kind})
     if proved or not getattr(ctx, 'build_failing', None):
         bad, errs = core.run_cases('C15', 'actions', ['AV.Model.Base', 'AV.Model.Pdu', 'AV.Model.Recv', 'AV.Model.RecvActions'],
                                    'fun p : list Z * bool => ser_hook_calls EncGsm (fst p) (snd p)', action_cases, shard=50)
